@@ -204,6 +204,30 @@ theorem wf_rejects_bad_skipped_units :
     ∧ wfChunk [0, 5, 55, 7, 0, 0, 2, 7, 4, 42, 62, 1, 62, 1] [] = false
     ∧ wfChunk [0, 5, 55, 5, 0, 0, 2, 7, 1, 42, 62, 1] [] = false := by decide
 
+/-- **builders are bracket-structured, and dynamic depth = static depth**: in an accepted chunk the
+builder instructions of every unit are properly nested `Start … Finish` brackets in listing order, all
+closed by the end of the unit (`linOk`), and in every configuration reachable from the unit's entry the
+numbers of open sequence and string builders are the static nesting depths of the current instruction
+in that bracket structure (`bracketAt`). Hence
+* a `Start` without its `Finish` is rejected, also in straight-line code that ends in `Return`;
+* at the unit's entry, at every jump target and at every instruction outside all brackets the builder
+  stacks are as at frame entry; inside a bracket they hold exactly the enclosing brackets' builders;
+* a `Return` (or an error leaving the frame) finds open builders only when it sits inside a literal's
+  bracket — those are what `pop_frame` / the catch path truncate away (fix 97373d1): the VM's contract
+  is "a frame may be left from inside a literal; inside the frame every builder instruction works on
+  the builder of its own bracket", and this is what is accepted, no more. -/
+theorem wf_builders_bracketed (bytes : List Nat) (consts : List CKind) (h : wfChunk bytes consts = true)
+    (base need : Nat) (l : List Ann) (hu : (base, need, l) ∈ chunkUnits bytes) :
+    linOk 0 0 l = true
+    ∧ ∀ c, Reach l ⟨base, 0, 0, []⟩ c → bracketAt 0 0 l c.pc = some (c.seq, c.str) := by
+  have hf := wfChunk_units bytes consts h _ hu
+  refine ⟨hf.brackets, fun c hr => ?_⟩
+  obtain ⟨⟨a, ha, had⟩, _⟩ := good_reach consts base need l hf c hr
+  have hm := findPc_some _ _ _ ha
+  have := bracketAt_of_linOk base l 0 0 hf.sorted hf.brackets a hm.1 _ had
+  rw [hm.2] at this
+  exact this
+
 /-- **try balance at jumps is exact** (finding F-C05-6, fixed by 0e9e81b): in an accepted chunk the
 depth triple — open try blocks included — at the target of every reachable `Jump` / `JumpBack` is the
 depth at the jump itself: a `break` / `continue` that leaves try blocks must have closed them
@@ -241,15 +265,20 @@ example : (chunkUnits [0, 2, 27, 1, 2, 0, 0, 0, 18, 0, 0, 5, 1, 4, 2, 58, 4, 3, 
 /-- the verifier rejects: the real chunk of `|| 42` / `print 'hello'` (finding F-C05-4: a frame that
 no `Function` instruction delimits), a jump into the middle of an instruction, a register beyond the
 frame, a constant of the wrong kind, a join reached with and without an open sequence (the shape of
-`break` inside a list literal, finding F-C05-5) — while a `Return` inside an open sequence is accepted
-(the VM discards the builder, fix 97373d1) -/
+`break` inside a list literal, finding F-C05-5) — while a `Return` inside a sequence's
+`Start … ToList` bracket is accepted (`[1, (return 2)]`: the VM discards the builder, fix 97373d1) and
+a `SequenceStart` / `StringStart` that no finish instruction closes is rejected although the
+straight-line code has no join (the shape of an interpolated string in statement position compiled
+with `StringStart` but without `StringFinish`) -/
 theorem wf_rejects_witnesses :
     wfChunk [0, 5, 0, 2, 7, 1, 42, 62, 1, 12, 2, 0, 11, 4, 1, 60, 1, 2, 3, 1, 0, 62, 1] [.str, .str] = false
     ∧ wfChunk [0, 2, 55, 1, 0, 7, 1, 42, 62, 1] [] = false
     ∧ wfChunk [0, 2, 2, 2, 62, 1] [] = false
     ∧ wfChunk [0, 2, 10, 1, 0, 62, 1] [.str] = false
     ∧ wfChunk [0, 2, 57, 1, 2, 0, 19, 1, 62, 1] [] = false
-    ∧ wfChunk [0, 2, 19, 1, 62, 1] [] = true := by decide
+    ∧ wfChunk [0, 2, 19, 1, 62, 1, 22, 1, 62, 1] [] = true
+    ∧ wfChunk [0, 2, 19, 1, 62, 1] [] = false
+    ∧ wfChunk [0, 2, 24, 3, 7, 1, 9, 62, 1] [] = false := by decide
 
 /-! ## Register allocator (`frame.rs`) -/
 
